@@ -23,6 +23,8 @@ import (
 // ErrNoPeers is returned when there are no peers available to relay to.
 var ErrNoPeers = errors.New("no peers available")
 
+var errNoCommonHistory = errors.New("no common history")
+
 const (
 	// maxIPv4PrefixBits and maxIPv6PrefixBits are the largest valid prefix
 	// lengths for grouping remote addresses into subnets.
@@ -869,7 +871,7 @@ func (s *Syncer) syncLoop(ctx context.Context) error {
 						}
 						return cs, headers, remaining, nil
 					}
-					return consensus.State{}, nil, 0, errors.New("no common history")
+					return consensus.State{}, nil, 0, errNoCommonHistory
 				}()
 				respChan <- resp{peer: p, cs: cs, headers: headers, remaining: remaining, err: err}
 			}(p)
@@ -877,7 +879,12 @@ func (s *Syncer) syncLoop(ctx context.Context) error {
 		// sync each set of headers as they arrive
 		seen := make(map[types.BlockID]bool)
 		for range peers {
-			if r := <-respChan; r.err != nil {
+			if r := <-respChan; errors.Is(r.err, errNoCommonHistory) {
+				// there is nothing we can fetch from this peer (e.g. it was just
+				// bootstrapped from a checkpoint that none of our history entries
+				// hits), but it can still sync from us: keep the connection
+				r.peer.setSynced(true)
+			} else if r.err != nil {
 				r.peer.setErr(r.err)
 			} else if len(r.headers) == 0 {
 				r.peer.setSynced(true)
